@@ -52,6 +52,20 @@ def run(case):
                 els[name].equation = v
     except Exception as e:
         return None      # the DSL rejects the model: not a test
+    bad = compare(case, m, els, start, dt, steps, grid)
+    if bad or not case.get("dt2"):
+        return bad
+    # second phase: the run spec is changed on the existing model (direct assignment), caches reset, and the model re-run
+    dt2 = case["dt2"]
+    grid2 = [float(Fraction(str(start)) + i * Fraction(str(dt2))) for i in range(steps + 1)]
+    m.dt = dt2
+    m.stoptime = grid2[-1]
+    m.reset_cache()
+    bad = compare(case, m, els, start, dt2, steps, grid2)
+    return ("after model.dt = %r: " % dt2 + bad) if bad else None
+
+
+def compare(case, m, els, start, dt, steps, grid):
     # ---- reference ------------------------------------------------------------------------------------
     spec_of = {name: (kind, spec) for kind, name, spec in case["elements"]}
     memo = {}
@@ -125,7 +139,7 @@ def run(case):
                 return "%s(%r) = %r, explicit Euler gives %r" % (name, t, g, w)
     return None
 
-case = {'start': 1.0, 'dt': 1.0, 'steps': 6, 'elements': [('constant', 'c1', 0.5), ('constant', 'c2', 4.0), ('converter', 'v0', '(0.5 + F_abs((T / (1.0 + F_abs(c2)))))'), ('converter', 'v1', 'c1'), ('converter', 'v2', '(v1 + v0)'), ('flow', 'f0', '((0.5 - c1) + DT)'), ('stock', 's0', (10.0, ['f0'], [], 'F_delay(v2, 2.0, 0.0)'))]}
+case = {'start': 0.0, 'dt': 1.0, 'steps': 8, 'elements': [('constant', 'c1', 3.0), ('constant', 'c2', 1.0), ('converter', 'v0', 'T'), ('converter', 'v1', '((c2 + v0) - (T - DT))'), ('converter', 'v2', '0.5'), ('flow', 'f0', '(v0 + F_delay(v1, 2.0, 5.0))'), ('stock', 's0', (-3.0, [], ['f0'], None))], 'dt2': 0.5}
 bad = run(case)
 print("model:", case)
 print("FAIL: " + bad if bad else "PASS")
